@@ -163,16 +163,19 @@ PROPS = {
     },
     "C04": {
         "level": "other",
-        "explanation": "partly proved, partly bounded, with a declared gap: (proved, Kani, complete) all word kernels and byte tables used by "
-                       "the excess searches (find_unmatched_close_in_word, find_close_in_word, word_min_excess*, word_max_excess_rev, the four "
-                       "BYTE_* tables); (proved, Verus, all lengths) the rank side of BalancedParens on the real text -- rank1, rank1_slow and "
-                       "the operations composed from them -- given the rank-directory invariant; (bounded, Kani) find_close_in_word_fast at five "
-                       "(start, valid_bits) shapes and every public navigation operation of a 2-word, 100-bit BalancedParens against the "
-                       "excess-scan definition. NOT covered: the L1/L2 block skipping of find_close_from on vectors longer than a few words, "
-                       "build_bp_index's L1/L2 builders, the select-support variants at non-default rates, the simd (SSE4.1) builders.",
-        "trusted_base": COMMON_TRUST + ["Verus 0.2026.09.13 + Z3"],
+        "explanation": "partly proved, partly bounded, with a declared gap. Proved without bound: (Kani, complete) all word kernels and byte "
+                       "tables used by the excess searches (find_unmatched_close_in_word, find_close_in_word, word_min_excess*, "
+                       "word_max_excess_rev, the four BYTE_* tables); (Verus, all lengths, real text) build_bp_index -- L1 and L2 min-excess / "
+                       "block-excess arrays are the block folds of the level below, and the rank directory (absolute L1 counts, 9-bit packed "
+                       "L2 offsets, total with the final word masked) satisfies the invariant -- and the rank side of BalancedParens: rank1, "
+                       "rank1_slow, rank0, excess, select0, is_open/is_close, first_child, total_zeros. Bounded (Kani): "
+                       "find_close_in_word_fast at five (start, valid_bits) shapes, every navigation operation of a 2-word/100-bit "
+                       "BalancedParens against the excess-scan definition, CS-Poppy select at rate 3. NOT covered: the L0/L1/L2 block "
+                       "skipping loop of find_close_from on long vectors, find_open/enclose beyond the bounded twin, WithSelect, the simd "
+                       "(SSE4.1) builders.",
+        "trusted_base": COMMON_TRUST + ["Verus 0.2026.09.13 + Z3", "build_l0_index stubbed in c04_build (its per-word kernels are Kani-proved)"],
         "assumptions": ["words.len() == ceil(len/64) and len <= u32::MAX (asserted by every constructor)",
-                        "build_bp_index establishes the rank-directory invariant (assumed; bounded support only)"],
+                        "excess(p): len < 2^30 (beyond that the i32 result cannot hold 2*rank1)"],
     },
     "C21": {
         "level": "other",
